@@ -1377,6 +1377,11 @@ class Evaluator:
     def get_attr(self, base: Term, name: str, st: State) -> Term:
         if (base, name) in st.fields:
             return st.fields[(base, name)]
+        if name == "text" and ((base[0] == "attr" and base[2] == "symbol") or
+                               (base[0] == "call" and base[1][0] == "attr" and base[1][2] == "getSymbol" and not base[2])):
+            # <terminal node>.symbol.text is what <terminal node>.getText() returns (antlr4 TerminalNodeImpl)
+            node = base[1] if base[0] == "attr" else base[1][1]
+            return ("call", ("attr", node, "getText"), (), ())
         o = st.obj(base)
         if o is not None and "fields" in o and name in o["fields"]:
             return o["fields"][name]
@@ -1419,8 +1424,8 @@ class Evaluator:
         for c in mro:
             if name in c.class_attrs:
                 fi = next((f for f in c.own_fields if f.name == name), None)
-                if fi is not None and "ClassVar" not in fi.annotation:
-                    return None          # a dataclass field / annotated instance attribute with a default
+                if fi is not None and "ClassVar" not in fi.annotation and any(k.is_dataclass for k in mro):
+                    return None          # a dataclass field with a default (per instance once the constructor ran)
                 if any(isinstance(n, ast.Attribute) and n.attr == name and isinstance(n.ctx, ast.Store)
                        for k in mro for fn in k.methods.values() for n in ast.walk(fn)):
                     return None          # assigned through an instance somewhere
